@@ -82,9 +82,12 @@ type mapIter struct {
 }
 type ChanObj struct {
 	buf    []Val
+	vcs    []vclock // per buffered message: the sender's clock (threads)
 	cap    int
 	closed bool
 	id     int
+	sent, rcvd  int
+	recvWaiting int
 }
 type Chan struct{ C *ChanObj }
 
